@@ -6,7 +6,9 @@
 // Case file (written by checks/C04.py; the OCaml driver of the extracted model reads the same file):
 //   case <id>
 //   clock <idx> parent=<p|-> freq=<n>/<d> name=<n> rstname=<n> trig=<R|F|B> psync=<0|1> rst=<S|A|N> act=<H|L> init=<0|1> mrt=<n>/<d> mrc=<n>
-//          (freq: absolute frequency of a root clock, multiplier relative to the parent of a derived clock)
+//          (freq: absolute frequency of a root clock, multiplier relative to the parent of a derived clock;
+//           any of freq (derived only) name rstname (derived only) trig psync rst act init may be "-": the optional
+//           ClockConfig field is then left UNSET, i.e. inherited from the parent / defaulted by the frontend)
 //   input <idx> w=<width> clk=<c>       (the pin is created inside ClockScope(c), i.e. attached to that clock)
 //   reg <idx> clk=<c> w=<width> rstval=<bits|-> d=<expr|-> en=<expr|->
 //   order <r>*                         (model only: order in which clocked nodes are visited; ignored here)
@@ -20,6 +22,7 @@
 //
 // Output, per case:
 //   case <id>
+//   E <clk> trig= rst= act= init= psync= name= rstname= f=     effective attributes read back from the hlim clock
 //   A <clk> pin=<src> rst=<src|-> f=<n>/<d>           one line per clock that got a clock pin (relevant clocks)
 //   H <rstsrc> <n>/<d>                                 reset hold time used by powerOn for each reset pin
 //   T <n>/<d> C <clk>:<r|f>:<k>,.. R <clk>:<0|1>,.. V <bits> <bits> ..    one line per onCommitState
@@ -31,6 +34,7 @@
 #include <gatery/hlim/supportNodes/Node_CDC.h>
 #include <gatery/hlim/Clock.h>
 #include <gatery/simulation/SimulatorCallbacks.h>
+#include <cstring>
 #include <map>
 #include <memory>
 #include <optional>
@@ -58,7 +62,8 @@ static std::string kv(const std::vector<std::string> &tok, const std::string &ke
 }
 static std::string ratStr(const Rat &r) { return std::to_string(r.numerator()) + "/" + std::to_string(r.denominator()); }
 
-struct ClockSpec { int idx, parent; Rat freq; int name, rstname; char trig; bool psync; char rst; bool actHigh; bool init; Rat mrt; size_t mrc; };
+// optional ClockConfig fields are kept as text: "-" = left unset (the frontend then inherits from the parent / uses the default)
+struct ClockSpec { int idx, parent; std::string freq, name, rstname, trig, psync, rst, act, init; Rat mrt; size_t mrc; };
 struct RegSpec { int idx, clk; size_t w; std::string rstval, d, en; };
 struct Stim { Rat t; std::vector<std::pair<int, std::string>> writes; };
 struct RstEv { Rat t; int clk; bool level; };
@@ -180,14 +185,15 @@ static void runCase(const Case &cs, std::ostream &out) {
 	std::vector<Clock> clocks;
 	for (auto &c : cs.clocks) {
 		ClockConfig cfg;
-		if (c.parent < 0) cfg.absoluteFrequency = c.freq; else cfg.frequencyMultiplier = c.freq;
-		cfg.name = "clk" + std::to_string(c.name);
-		cfg.resetName = "rst" + std::to_string(c.rstname);
-		cfg.triggerEvent = c.trig == 'R' ? ClockConfig::TriggerEvent::RISING : c.trig == 'F' ? ClockConfig::TriggerEvent::FALLING : ClockConfig::TriggerEvent::RISING_AND_FALLING;
-		cfg.phaseSynchronousWithParent = c.psync;
-		cfg.resetType = c.rst == 'S' ? ClockConfig::ResetType::SYNCHRONOUS : c.rst == 'A' ? ClockConfig::ResetType::ASYNCHRONOUS : ClockConfig::ResetType::NONE;
-		cfg.initializeRegs = c.init;
-		cfg.resetActive = c.actHigh ? ClockConfig::ResetActive::HIGH : ClockConfig::ResetActive::LOW;
+		if (c.parent < 0) { if (c.freq == "-" || c.name == "-" || c.rstname == "-") throw std::runtime_error("root clock needs freq, name, rstname"); cfg.absoluteFrequency = parseRat(c.freq); }
+		else if (c.freq != "-") cfg.frequencyMultiplier = parseRat(c.freq);
+		if (c.name != "-") cfg.name = "clk" + c.name;
+		if (c.rstname != "-") cfg.resetName = "rst" + c.rstname;
+		if (c.trig != "-") cfg.triggerEvent = c.trig == "R" ? ClockConfig::TriggerEvent::RISING : c.trig == "F" ? ClockConfig::TriggerEvent::FALLING : ClockConfig::TriggerEvent::RISING_AND_FALLING;
+		if (c.psync != "-") cfg.phaseSynchronousWithParent = c.psync == "1";
+		if (c.rst != "-") cfg.resetType = c.rst == "S" ? ClockConfig::ResetType::SYNCHRONOUS : c.rst == "A" ? ClockConfig::ResetType::ASYNCHRONOUS : ClockConfig::ResetType::NONE;
+		if (c.init != "-") cfg.initializeRegs = c.init == "1";
+		if (c.act != "-") cfg.resetActive = c.act == "H" ? ClockConfig::ResetActive::HIGH : ClockConfig::ResetActive::LOW;
 		if (c.parent < 0) clocks.push_back(Clock(cfg)); else clocks.push_back(clocks.at(c.parent).deriveClock(cfg));
 		clocks.back().getClk()->setMinResetTime(c.mrt);
 		clocks.back().getClk()->setMinResetCycles(c.mrc);
@@ -235,6 +241,18 @@ static void runCase(const Case &cs, std::ostream &out) {
 	});
 	sim.compileProgram(design.getCircuit());
 
+	// effective attributes of every hlim clock as the frontend left them (inheritance of unset ClockConfig fields)
+	for (size_t i = 0; i < clocks.size(); i++) {
+		hlim::Clock *k = clocks[i].getClk();
+		auto &ra = k->getRegAttribs();
+		auto strip = [](const std::string &n, const char *pre) { return n.rfind(pre, 0) == 0 ? n.substr(strlen(pre)) : "?" + n; };
+		Rat f = k->getParentClock() ? dynamic_cast<hlim::DerivedClock *>(k)->getFrequencyMuliplier() : k->absoluteFrequency();
+		out << "E " << i << " trig=" << (k->getTriggerEvent() == hlim::Clock::TriggerEvent::RISING ? "R" : k->getTriggerEvent() == hlim::Clock::TriggerEvent::FALLING ? "F" : "B")
+			<< " rst=" << (ra.resetType == hlim::RegisterAttributes::ResetType::SYNCHRONOUS ? "S" : ra.resetType == hlim::RegisterAttributes::ResetType::ASYNCHRONOUS ? "A" : "N")
+			<< " act=" << (ra.resetActive == hlim::RegisterAttributes::Active::HIGH ? "H" : "L")
+			<< " init=" << (ra.initializeRegs ? 1 : 0) << " psync=" << (k->getPhaseSynchronousWithParent() ? 1 : 0)
+			<< " name=" << strip(k->getName(), "clk") << " rstname=" << strip(k->getResetName(), "rst") << " f=" << ratStr(f) << "\n";
+	}
 	// allocation summary
 	auto &alloc = sim.program().m_stateMapping.clockPinAllocation;
 	for (size_t i = 0; i < clocks.size(); i++) {
@@ -276,9 +294,9 @@ int main(int argc, char **argv) {
 			else if (!open) throw std::runtime_error("line outside a case: " + line);
 			else if (tok[0] == "clock") {
 				ClockSpec c; c.idx = std::stoi(tok.at(1)); auto p = kv(tok, "parent"); c.parent = p == "-" ? -1 : std::stoi(p);
-				c.freq = parseRat(kv(tok, "freq")); c.name = std::stoi(kv(tok, "name")); c.rstname = std::stoi(kv(tok, "rstname"));
-				c.trig = kv(tok, "trig").at(0); c.psync = kv(tok, "psync") == "1"; c.rst = kv(tok, "rst").at(0); c.actHigh = kv(tok, "act") == "H";
-				c.init = kv(tok, "init") == "1"; c.mrt = parseRat(kv(tok, "mrt")); c.mrc = std::stoull(kv(tok, "mrc"));
+				c.freq = kv(tok, "freq"); c.name = kv(tok, "name"); c.rstname = kv(tok, "rstname");
+				c.trig = kv(tok, "trig"); c.psync = kv(tok, "psync"); c.rst = kv(tok, "rst"); c.act = kv(tok, "act");
+				c.init = kv(tok, "init"); c.mrt = parseRat(kv(tok, "mrt")); c.mrc = std::stoull(kv(tok, "mrc"));
 				if (c.idx != (int)cs.clocks.size()) throw std::runtime_error("clock numbering");
 				cs.clocks.push_back(c);
 			} else if (tok[0] == "input") { cs.inputs.push_back({ std::stoi(tok.at(1)), std::stoull(kv(tok, "w")), std::stoi(kv(tok, "clk")) }); }
